@@ -12,6 +12,8 @@ from pathlib import Path
 
 import numpy as np
 
+from vp import leftovers
+
 from props.c05 import gen_cfg
 from vp import twin
 from vp.core import HarnessError, LEAN, Check, f2h, lean_run
@@ -119,9 +121,12 @@ def op_script(chk, rng, cfg, script):
                     cal.calibrate(op[1])
                     if auto:
                         saved = deep(cal) if cal.current_batch_index > 0 else saved     # calibrate() checkpoints after each batch
+                        if cal.current_batch_index > 0:
+                            leftovers.plant_stale_pickles(folder)
                 elif op[0] == "K":
                     cal.create_checkpoint(folder)
                     saved = deep(cal)
+                    leftovers.plant_stale_pickles(folder)
                 elif op[0] == "R" and saved is not None:
                     r = Calibrator.restore_from_checkpoint(folder, model=twin.toy_model)
                     dd = diff(saved, deep(r))
